@@ -1,13 +1,48 @@
 """C11 -- syncing leaves the local metric's results unchanged and can be repeated with the same outcome (every class,
-checking transport); using the synced metric never reaches the local one."""
-from .. import syncdirect
+checking transport); using the synced metric never reaches the local one.
 
-LEVEL_NOTE = ("sync non-interference: every catalogue class, W = 2..4 on the checking transport: local compute() before vs after "
-              "sync_and_compute / get_synced_metric, first vs second sync, updates of the synced metric vs the local one")
+Theorems: coq/Props/C11_sync.v (proofs in Proofs/SyncNonInterfP.v, Proofs/SyncInstancesP.v).  Streams here:
+  * the implementation-level sync stream of vlib/syncdirect.py (every catalogue class);
+  * a prep-heavy history correspondence for the classes that override _prepare_for_merge_state: the model's `prep`
+    (the thing PrepLaws talks about) against the real hook, state by state;
+  * a table obligation: the set of catalogue classes overriding the hook is exactly the set whose model has a
+    non-identity prep and a <Class>_PrepLaws theorem (a new override in an additive / hand-written class would make
+    the identity-prep instance describe the wrong thing)."""
+from .. import syncdirect, streams
+from ..catalogue import entries
+
+LEVEL_NOTE = ("Props/C11_sync.v: PrepLaws M c (prep idempotent; cmp (prep s) = cmp s; every later history -- updates, merges with "
+              "arbitrary sources, computes, preps -- and every object the local one is later merged into show the same results and "
+              "raises) gives sync_leaves_local_results_unchanged (effect of k syncs on the local object modelled as "
+              "local_after_syncs = prep^k, identity for world size 1), sync_repeatable (toolkit model of C02 instantiated with the "
+              "value model: the repeated sync is the same per-rank program, same outcome incl. mismatch), sync_repeatable_merged / "
+              "sync_collection_repeatable (with C02 sync_equals_local_merge_exact), synced_metric_is_independent / "
+              "synced_metric_use_keeps_local_results (pool frame). PrepLaws instances: additive functor, cache functor, score caches, "
+              "AUC, all identity-prep models; one <Class>_PrepLaws per overriding class. Assumed/tied, not proved: that the toolkit "
+              "writes the local object only through _prepare_for_merge_state and that clone_metric shares no storage (skeletons of "
+              "tr_effects + the sync stream below on W = 2..4: local compute() and states before vs after sync, first vs second "
+              "sync, updates of the synced metric vs the local one); model prep = real hook (prep-heavy history correspondence)")
+
+# classes with a non-identity prep in their model and a per-class theorem in Props/C11_sync.v
+PREP_CLASSES = ["Cat", "AUC", "BinaryBinnedAUROC", "MulticlassBinnedAUROC", "BinaryAUROC", "MulticlassAUROC", "BinaryAUPRC",
+                "MulticlassAUPRC", "MultilabelAUPRC", "BinaryPrecisionRecallCurve", "MulticlassPrecisionRecallCurve",
+                "MultilabelPrecisionRecallCurve", "BinaryRecallAtFixedPrecision", "MultilabelRecallAtFixedPrecision",
+                "HitRate", "ReciprocalRank"]
+
+
+def _overriding():
+    from torcheval.metrics.metric import Metric
+    return [e for e in entries() if getattr(e.cls, "_prepare_for_merge_state", None) is not Metric._prepare_for_merge_state]
 
 
 def run(ctx):
     syncdirect.stream(ctx, {"c11-local", "c11-repeat"}, "sync leaves the local metric unchanged and is repeatable, every class (implementation only)", ctx.n(6, 60))
+    ov = _overriding()
+    names = sorted(e.name for e in ov)
+    ctx.oblige("tie:prep-override-set", names == sorted(PREP_CLASSES),
+               detail=f"classes overriding _prepare_for_merge_state: {names}; classes with a non-identity prep model and theorem: {sorted(PREP_CLASSES)}")
+    streams.hist_corr(ctx, ents=ov, mix={"upd": 8, "merge": 3, "compute": 4, "prep": 6, "clone": 1, "reset": 0.5},
+                      name="prep-correspondence (classes overriding _prepare_for_merge_state)", nhist=ctx.n(8, 80))
 
 
 replay = syncdirect.replay
